@@ -47,7 +47,10 @@ def _axes():
         Axis("tol", [("1e-8", 1e-8), ("1e-5", 1e-5)]),
         Axis("submax", [("100", 100), ("2", 2)]),
         Axis("ws", [("T", True), ("F", False)]),
-        Axis("lam0", [("0", 0.0), ("1", 1.0), ("10", 10.0)]),
+        # "near": the exact multipliers of the reference solution + 4e-7 (a nearly exact warm start of the multipliers makes
+        # the total residual small during the first, loosely solved, outer iterations; added after a seeded change that
+        # compared it with the ramped sub-problem tolerance went undetected)
+        Axis("lam0", [("0", 0.0), ("1", 1.0), ("10", 10.0), ("near", "near")]),
         Axis("kap0", [("1", 1.0), ("0.25", 0.25), ("100", 100.0)]),
         Axis("tr", [("2", 2.0), ("1e-2", 1e-2)]),
     ]
@@ -116,10 +119,10 @@ def _lin_constraints(d, pat, xstar):
     return onp.array(G), onp.array(h)
 
 
-def _qp_min(A, b, G, h):
+def _qp_min(A, b, G, h, with_multipliers=False):
     """Exact minimiser of 1/2x'Ax-b'x s.t. Gx-h>=0 by active-set enumeration."""
     m, n = G.shape
-    best, bestv = None, onp.inf
+    best, bestv, bestlam = None, onp.inf, onp.zeros(m)
     for act in itertools.product((0, 1), repeat=m):
         idx = [i for i in range(m) if act[i]]
         if idx:
@@ -133,12 +136,15 @@ def _qp_min(A, b, G, h):
                 continue
         else:
             x = onp.linalg.solve(A, b)
+            lam = onp.zeros(0)
         if onp.any(G @ x - h < -1e-10):
             continue
         v = 0.5 * x @ A @ x - b @ x
         if v < bestv:
             best, bestv = x, v
-    return best
+            bestlam = onp.zeros(m)
+            bestlam[idx] = lam
+    return (best, bestlam) if with_multipliers else best
 
 
 def run_group(g, tier, seed, rec):
@@ -189,7 +195,7 @@ def run_group(g, tier, seed, rec):
             s = s + G.T @ onp.maximum(0.2 - c_ref(s), 0) + 0.5 * gdir
             t += 1
         starts[0] = ("feasible", s)
-        xref = _qp_min(d["A"], d["b"], G, h) if convex else None
+        xref, lamref = _qp_min(d["A"], d["b"], G, h, with_multipliers=True) if convex else (None, None)
         label = "lin:m%d:%s" % (m, "+".join(g["pat"]))
     else:
         xc = xstar + onp.array([1.5, 0.5])
@@ -208,6 +214,7 @@ def run_group(g, tier, seed, rec):
         starts = [("feasible", xc + onp.array([0.1, -0.2])), ("infeasible", xc + onp.array([3.0, 1.0])),
                   ("boundary", xc + onp.array([0.0, 1.0]))]
         xref = None
+        lamref = None
         if convex:
             # minimise 1/2x'Ax-b'x on the disk: x(mu) = (A + mu I)^-1 (b + mu xc), find mu>=0 with |x-xc|=r
             A, b = d["A"], d["b"]
@@ -233,7 +240,12 @@ def run_group(g, tier, seed, rec):
             if not rec.want(cid):
                 continue
             kap0 = onp.full(m, cval["kap0"])
-            lam0 = onp.full(m, cval["lam0"])
+            if cval["lam0"] == "near":
+                if lamref is None:
+                    continue        # no exact reference multipliers for this constraint set
+                lam0 = onp.maximum(lamref + 4e-7, 0.0)
+            else:
+                lam0 = onp.full(m, cval["lam0"])
             if clab["kap0"] not in objs:
                 objs[clab["kap0"]] = ConstrainedObjective(f, cfun, jnp.array(x0), pold, jnp.array(lam0), jnp.array(kap0))
             obj = objs[clab["kap0"]]
@@ -359,7 +371,7 @@ def _run_bound(g, tier, seed, rec, d, xstar, configs, f, P):
                   "weak": xstar.copy(), "mixed": xstar + onp.array([0.7, -1.0])}
     idxsets = {"i0": [0], "i01": [0, 1]}
     # only deviations of axes that exist for this front end (lam0/kap0 are fixed by the library here)
-    configs = [c for c in configs if c[2]["lam0"] == "0" and c[2]["kap0"] == "1"]
+    configs = [c for c in configs if c[2]["lam0"] == "0" and c[2]["kap0"] == "1"]   # (library fixes lam0/kap0 here)
 
     def fs(x, p):
         return f(x + p[1], p)
